@@ -10,9 +10,10 @@ git diff -- src > /tmp/confirm_$ID.diff
 S1=$(cargo test --offline --lib 2>&1 | grep -E "^test result" | head -1)
 S2=$(cargo test --offline --doc 2>&1 | grep -E "^test result" | head -1)
 D1=$(cargo test --offline --test seed_demo 2>&1 | grep -E "^test result" | head -1)
-git stash push -q -- src
+# (no `git stash`: the stash is shared by all worktrees of the repository and races with other users of it)
+git apply -R /tmp/confirm_$ID.diff || { echo "cannot revert the change"; exit 9; }
 D2=$(cargo test --offline --test seed_demo 2>&1 | grep -E "^test result" | head -1)
-git stash pop -q
+git apply /tmp/confirm_$ID.diff || { echo "cannot re-apply the change"; exit 9; }
 echo "suite(lib) with change : $S1"; echo "suite(doc) with change : $S2"; echo "demo with change       : $D1"; echo "demo without change    : $D2"
 case "$S1" in *"0 failed"*) ;; *) echo "NOT CONFIRMED: suite"; exit 1;; esac
 case "$D1" in *FAILED*) ;; *) echo "NOT CONFIRMED: demo does not fail with the change"; exit 1;; esac
